@@ -49,6 +49,11 @@ class Run:
             if m == "get_column_expr_value" or callee.endswith("::get_column_expr_value"):
                 sub = [a for a in args if isinstance(a, dict) and "__side" in a]
                 if len(sub) == 1:
+                    maps = [a for a in args if isinstance(a, interp.HMap)]
+                    others = [a for a in args if isinstance(a, interp.Opaque) and "map" in str(a.what).lower()]
+                    trace.setdefault("_keep", []).extend(maps)      # keep the objects alive: their identities are compared
+                    trace.setdefault("operand_maps", []).append((sub[0]["__side"], id(maps[0]) if maps else None, len(maps[0]) if maps else None,
+                                                                 str(others[0].what) if others else None))
                     trace["operands"].append(sub[0]["__side"])
                     return (dict(left) if sub[0]["__side"] == "L" else dict(right),)
             if callee.endswith("is_glob"):
@@ -83,3 +88,33 @@ class Run:
             got = "exit"
         trace["cache_after"] = dict(cache)
         return got, trace
+
+
+
+def operands_evaluated_afresh(ctx):
+    """X-OPERANDS: the left operand of a comparison is evaluated for the entry at hand with a map created for that comparison:
+    the evaluator answers an expression found in the map it is given with a *text* (Variant::from_string), so a map shared
+    between the conditions of a WHERE clause turns the second occurrence of a numeric or date column into text
+    (`size >= 1k and size <= 2k` then compares "2048" with "2k")"""
+    run = Run(ctx)
+    n = 0
+    for op in ("Eq", "Gt", "Like"):
+        try:
+            got, tr = run.run(op, variant("5", "Int", int_value=5), variant("7"), matched=True)
+        except interp.Undecided as e:
+            ctx.obligation(False)
+            ctx.violation("operands/unreadable", ctx.where(CONFORMS), "cannot evaluate conforms for %s: %s" % (op, e))
+            return
+        om = tr.get("operand_maps", [])
+        n += 1
+        # the left operand decides the kind of comparison by its type: it is computed with a map created for this comparison
+        # and still empty (the right operand, whose value is converted to the left one's type anyway, may share that map)
+        left = [m_ for m_ in om if m_[0] == "L"]
+        ok = len(om) == 2 and len(left) == 1 and left[0][1] is not None and left[0][2] == 0 and left[0][3] is None
+        ctx.obligation(ok)
+        if not ok:
+            ctx.violation("operands/shared-memo", ctx.where(CONFORMS),
+                          "the left operand of a comparison must be evaluated with a map created for this comparison and still empty (a value remembered from another condition comes back as text): "
+                          "for %s the evaluator is handed %s" % (op, [("own empty map" if (m_[1] is not None and m_[2] == 0) else (m_[3] or "a map that is not empty / not its own")) for m_ in om]))
+            break
+    ctx.covered("maps handed to the operand evaluations of a comparison (fresh, distinct)", n, distinct_keys=["Eq", "Gt", "Like"], exhaustive=True)
